@@ -93,13 +93,20 @@ func (a *Analysis) CheckC12(rep *Report) {
 					rep.Ob("T2-defensive-arm-is-error", name, allFresh && r0.IsNilConst() && nilness(r1) == +1, a.P.Pos(lf.Pos()), "the lookup tests the registered factory or its result for nil and does not return (nil, error) there")
 					continue
 				}
+				// the comma-ok shape (codec, bool) is as good as (codec, error): true with the factory's result, false with nil
+				commaOk := r1 != nil && r1.Type != nil && isBoolType(r1.Type)
+				okSignal, failSignal := nilness(r1) == -1, nilness(r1) == +1
+				if commaOk {
+					b, known := r1.Bool()
+					okSignal, failSignal = known && b, known && !b
+				}
 				if isHit {
 					hit++
 					okv := r0.Op == "dyncall" && len(r0.Args) > 0 && r0.Args[0].Op == "lookup" && tableName(r0.Args[0].Args[0]) == t.Name && stripCT(r0.Args[0].Args[1]).Op == "param"
-					rep.Ob("T2-hit-returns-registered-factory", name, okv && nilness(r1) == -1, a.P.Pos(lf.Pos()), fmt.Sprintf("on a hit the lookup returns (%s, %s) instead of (the registered factory's result for the key, nil)", r0.Pretty(), r1.Pretty()))
+					rep.Ob("T2-hit-returns-registered-factory", name, okv && okSignal, a.P.Pos(lf.Pos()), fmt.Sprintf("on a hit the lookup returns (%s, %s) instead of (the registered factory's result for the key, nil)", r0.Pretty(), r1.Pretty()))
 				} else {
 					miss++
-					rep.Ob("T2-miss-returns-error", name, r0.IsNilConst() && nilness(r1) == +1, a.P.Pos(lf.Pos()), fmt.Sprintf("on a miss the lookup returns (%s, %s) instead of (nil, non-nil error)", r0.Pretty(), r1.Pretty()))
+					rep.Ob("T2-miss-returns-error", name, r0.IsNilConst() && failSignal, a.P.Pos(lf.Pos()), fmt.Sprintf("on a miss the lookup returns (%s, %s) instead of (nil, non-nil error)", r0.Pretty(), r1.Pretty()))
 				}
 			}
 			rep.Ob("T2-lookup-shape", name, hit >= 1 && miss >= 1, a.P.Pos(lf.Pos()), fmt.Sprintf("lookup has %d hit paths and %d miss paths", hit, miss))
